@@ -18,6 +18,7 @@ import (
 	"encoding/hex"
 	"errors"
 	"fmt"
+	"github.com/ipld/go-ipld-prime/zzsimhook"
 	"io"
 	"os"
 	"path/filepath"
@@ -158,6 +159,11 @@ func (S) RunTape(t *sim.Tape, st *sim.Stats, keepLog bool) *sim.Outcome {
 	s.Log.Keep = keepLog
 	s.MaxSteps = 200000
 	w := &world{t: t, s: s, o: o, st: st}
+	// function-entry yields inside the storage packages (build overlay): callers can be
+	// interleaved between the steps of computing a path, not only at file-system calls
+	zzsimhook.Yield = s.Yield
+	zzsimhook.YieldBlocked = s.YieldBlocked
+	defer func() { zzsimhook.Yield, zzsimhook.YieldBlocked = nil, nil }()
 
 	// ---- configuration ----
 	w.backend = t.Choice(4, "cfg.backend") // 0 memstore, 1 cidlink.Memory, 2 fsstore defaults, 3 fsstore custom
